@@ -162,7 +162,7 @@ UInit(root, start) ==
 OwnerIdx(stack) == CHOOSE i \in 1..Len(stack) :
                       stack[i].kind = "pkt" /\ \A j \in (i + 1)..Len(stack) : stack[j].kind # "pkt"
 Owner(stack) == stack[OwnerIdx(stack)]
-EnvU(raw, m) == [vals |-> Owner(m.stack).vals, raw |-> raw, cur |-> m.cur, root |-> m.stack[1].vals]
+EnvU(raw, m) == [vals |-> Owner(m.stack).vals, raw |-> raw, cur |-> m.cur, root |-> m.stack[1].vals, ipos |-> Owner(m.stack).pos]
 CurFieldOf(dp, fr) == dp[fr.cls].fields[fr.idx]
 
 \* the name under which a field is listed (a described field is listed under its hidden name)
@@ -174,8 +174,8 @@ FailU(m) == [m EXCEPT !.st = "unwind"]
 RECURSIVE AfterUnpackHooks(_, _, _)
 AfterUnpackHooks(fs, i, vals) ==       \* [ok, name]
     IF i > Len(fs) THEN [ok |-> TRUE, name |-> ""]
-    ELSE IF fs[i].k = "Int" /\ fs[i].desc.kind = "verify"
-         THEN LET r == Eval(fs[i].desc.e, [vals |-> vals, raw |-> <<>>, cur |-> 0, root |-> <<>>]) IN
+    ELSE IF fs[i].k = "Int" /\ fs[i].desc.kind \in {"verify", "check"}
+         THEN LET r == Eval(fs[i].desc.e, [vals |-> vals, raw |-> <<>>, cur |-> 0, root |-> <<>>, ipos |-> 0]) IN
               IF r.ok /\ HasVal(vals, fs[i].name) /\ r.v = Lookup(vals, fs[i].name)
               THEN AfterUnpackHooks(fs, i + 1, vals)
               ELSE [ok |-> FALSE, name |-> ListedName(fs[i])]
@@ -340,16 +340,16 @@ RunningU(m) == m.st \in {"run", "unwind"}
 \* sync_before_pack of the descriptors: hidden slot := what the attribute reads as.
 \* explicit = names whose descriptor was disabled by an assignment (top-level packet only)
 DescRead(f, vals, explicit) ==       \* [ok, v]
-    IF f.name \in explicit THEN Ok(Lookup(vals, f.name))
+    IF f.name \in explicit \/ f.desc.kind = "check" THEN Ok(Lookup(vals, f.name))      \* ("check": a plain slot with an after-unpack hook)
     ELSE IF f.desc.kind = "autolen"
          THEN LET t == IF HasVal(vals, f.desc.of) THEN Lookup(vals, f.desc.of) ELSE NoneV IN
               IF t.t \in {"bytes", "list"} THEN Ok(IntV(Len(PL(t)))) ELSE Raise
-         ELSE Eval(f.desc.e, [vals |-> vals, raw |-> <<>>, cur |-> 0, root |-> <<>>])
+         ELSE Eval(f.desc.e, [vals |-> vals, raw |-> <<>>, cur |-> 0, root |-> <<>>, ipos |-> 0])
 
 RECURSIVE SyncVals(_, _, _, _)
 SyncVals(fs, i, vals, explicit) ==      \* [ok, vals, name]
     IF i > Len(fs) THEN [ok |-> TRUE, vals |-> vals, name |-> ""]
-    ELSE IF fs[i].k = "Int" /\ fs[i].desc.kind # "none"
+    ELSE IF fs[i].k = "Int" /\ fs[i].desc.kind \notin {"none", "check"}      \* ("check" brings no before-pack hook)
          THEN LET r == DescRead(fs[i], vals, explicit) IN
               IF ~r.ok THEN [ok |-> FALSE, vals |-> vals, name |-> ListedName(fs[i])]
               ELSE SyncVals(fs, i + 1, SetVal(vals, fs[i].name, r.v), explicit)
@@ -379,7 +379,7 @@ UnwindP(dp, p) ==
               ELSE p.err
     IN [p EXCEPT !.stack = Pop(p.stack), !.err = e, !.st = IF Len(p.stack) = 1 THEN "fail" ELSE "unwind"]
 
-EnvP(p) == [vals |-> Owner(p.stack).vals, raw |-> <<>>, cur |-> p.frag.cur, root |-> p.stack[1].vals]
+EnvP(p) == [vals |-> Owner(p.stack).vals, raw |-> <<>>, cur |-> p.frag.cur, root |-> p.stack[1].vals, ipos |-> Owner(p.stack).pos]
 
 \* fragments.append(bytes): [ok, p]
 PAppend(p, s) ==
